@@ -1,6 +1,6 @@
 """C05 — Compiled control flow and closures mean what the source says."""
 
-from ..rules import compiler_rules, emitrules
+from ..rules import compiler_rules, emitrules, hashorder
 
 
 def run(ctx, rep):
@@ -22,6 +22,8 @@ def run(ctx, rep):
     compiler_rules.rule_traversal_completeness(ctx, rep, "C05-R4")
     compiler_rules.rule_lowering_exhaustive(ctx, rep, "C05-R6")
     compiler_rules.rule_variable_resolution(ctx, rep, "C05-R9")
+    hashorder.rule_frame_positions(ctx, rep, "C05-R10")
+    hashorder.rule_parallel_tables(ctx, rep, "C05-R11")
     rep.undecided += [
         "equality of the observable log with ECMAScript's for all programs (needs a reference semantics and execution)",
         "correctness among equally deep jump targets beyond the placement rule C05-R2",
